@@ -621,6 +621,9 @@ class FIXSchema:
             self._parse_field(element)
 
         self._parse_header(root.find("header"))
+        self._trailer = SchemaHeader()
+        if root.find("trailer") is not None:
+            self._trailer = self._parse_msg_set(SchemaHeader(), root.find("trailer"))
 
         all_components = [e for e in root.find("components")]
         full_count = len(all_components)
@@ -709,6 +712,8 @@ class FIXSchema:
 
             if field in self._header:
                 fschema = self._header[field]
+            elif field in self._trailer:
+                fschema = self._trailer[field]
             elif field not in schema_msg:
                 raise FIXMessageError(
                     f"msg field={field} is not allowed in {schema_msg}"
